@@ -218,6 +218,27 @@ def r3(ctx, sc):
         if x.op == 'store' and res.loc(x.ops[1])[0] == 'elem' and res.loc(x.ops[1])[1] == ('deref', res.loc(holder) if holder else None):
             d = f.def_of(S.strip_ext(f, x.ops[0]))
             if d is not None and d.op == 'load' and res.loc(d.ops[0])[0] == 'elem' and res.loc(d.ops[0])[1] == ('deref', src): copied = True
+    if not copied:
+        # the same copy written with walking pointers: `to = buf; from = yybytes; ... *to++ = *from++;` (neutral diff m1P3).
+        # A local pointer "walks" an origin when it is initialised with the value of the origin slot and otherwise only stepped.
+        def walks(l, origin):
+            if not (isinstance(l, tuple) and l[0] == 'deref' and isinstance(l[1], tuple) and l[1][0] == 'local'): return False
+            T = l[1]
+            inits = [y for y in f.ins if y.op == 'store' and res.loc(y.ops[1]) == T]
+            def from_origin(val):
+                dd = f.def_of(flow.strip_casts(f, val)) if val[0] == 'reg' else None
+                return dd is not None and dd.op == 'load' and res.loc(dd.ops[0]) == origin
+            def step(val):
+                dd = f.def_of(val) if val[0] == 'reg' else None
+                if dd is None or dd.op != 'getelementptr': return False
+                b_ = f.def_of(dd.ops[0]) if dd.ops[0][0] == 'reg' else None
+                return b_ is not None and b_.op == 'load' and res.loc(b_.ops[0]) == T
+            return any(from_origin(y.ops[0]) for y in inits) and all(from_origin(y.ops[0]) or step(y.ops[0]) for y in inits)
+        hl = res.loc(holder) if holder else None
+        for x in f.ins:
+            if x.op == 'store' and x.ty is not None and x.ty.k == 'int' and x.ty.a == 8 and hl is not None and walks(res.loc(x.ops[1]), hl):
+                d = f.def_of(S.strip_ext(f, x.ops[0]))
+                if d is not None and d.op == 'load' and walks(res.loc(d.ops[0]), src): copied = True
     if not copied and not any(c.op == 'call' and c.callee in ('memcpy', 'llvm.memcpy.p0i8.p0i8.i64') for c in f.ins):
         probs.append((al, 'the caller\'s bytes are not copied into the new block'))
     # yy_is_our_buffer = 1 on the returned buffer, on every path to the return
